@@ -9,7 +9,7 @@ from .gen import gen_strategy
 from .lin import linearizable
 
 NAME = 'coord'
-PROPS = ('C17',)
+PROPS = ('C17', 'C07')
 REAL = ['s3transfer.futures.TransferCoordinator', 's3transfer.futures.TransferFuture',
         'stdlib threading.Event/Lock source (on simulated _thread)']
 STUB = ['OS scheduler (kernel)', 'callers: seeded operation programs']
@@ -83,6 +83,8 @@ def generate(prop, seed):
     sc = {'programs': progs, 'strategy': gen_strategy(rng, 100),
           'sched_seed': rng.randrange(1 << 62), 'seed': seed, 'prop': prop}
     r = rng.random()
+    if prop == 'C07':
+        r = 0.1      # C07's stage: waiter mode only, with a cancellation in play
     if 0.2 <= r < 0.38:
         # statement-level pre-emption of the ordinary programs: every mutator
         # is atomic under the coordinator lock, so the history must still be
@@ -104,6 +106,10 @@ def generate(prop, seed):
         sc['programs'] = [[op for op in p if op[0] in keep] for p in progs]
         if not any(op[0] in ('set_exception', 'cancel') for p in sc['programs'] for op in p):
             sc['programs'][0].append(['set_exception', 99])
+        if prop == 'C07' and not any(op[0] == 'cancel' for p in sc['programs'] for op in p):
+            p0 = sc['programs'][rng.randrange(len(sc['programs']))]
+            p0.insert(rng.randint(0, len(p0)), ['cancel', rng.choice(['', 'm', 'stop']),
+                                                rng.choice(['CancelledError', 'FatalError'])])
         sc['programs'] = [p + [['announce']] if any(op[0] in ('set_exception', 'cancel')
                                                    for op in p) and rng.random() < 0.7 else p
                           for p in sc['programs']]
@@ -308,6 +314,12 @@ def execute(sc, choices=None, lenient=False):
             w0 = waiter_out[0]
             final = coord.exception
             if coord.status in ('failed', 'cancelled'):
+                if w0[0] == 'ok' and coord.status == 'cancelled':
+                    # (the same observation, as C07 states it)
+                    violations.append(['C07', 'cancelled-transfer-reported-success',
+                                       'result() of a waiter returned %r although the transfer '
+                                       'was cancelled (%r): a racing cancel yielded a reported '
+                                       'success' % (w0[1], final), {}])
                 if w0[0] == 'ok':
                     violations.append(['C17', 'result-returned-for-failed-transfer',
                                        'a waiter\'s result() returned %r although the transfer '
